@@ -28,6 +28,9 @@ def letters_for(cfg):
         L['icmp'] = (['icmp'], [])
         L['garbage-then-valid'] = (['garbage', 'valid'], [])
         L['fragment-only'] = (['frag1'] + ['drop'] * R, [])
+        # connecting the datagram socket fails (no route, interface down): at every attempt / at the first attempt only
+        L['connect-netunreach'] = 'udpconn', ['netunreach'] * (R + 1)
+        L['connect-netunreach-once'] = 'udpconn', ['netunreach']
     else:
         L['rst'] = (['rst'] + ['drop'] * R, [])
         L['fin'] = (['fin'] + ['drop'] * R, [])
@@ -60,6 +63,12 @@ def apply(s: Session, L, name):
         s.newloop_open()
     elif a == 'close':
         s.close()
+    elif a == 'udpconn':
+        s.peer.forced_udp_conn = list(b)
+        o = s.request(['drop'] * (s.cfg['R'] + 1))
+        s.peer.forced_udp_conn = []
+        s.drain()
+        return o
     elif a == 'cancel':
         s.request_cancelled(['drop'] * (s.cfg['R'] + 2), b)
         s.drain()
